@@ -409,7 +409,7 @@ def apply_contract(ip: Interp, c, recv, args, kwargs, n):
             raise Raised(exc)
     havoc_paths(ip, env, c.modifies, short)
     result = mk_symbolic(ip, c.ret, f'{short}.result')
-    env['result'] = result
+    env['retval' if 'result' in c.sig else 'result'] = result
     for _tag, clause in c.clauses():
         if _assign_form(ip, clause, env, c.modifies):
             continue
@@ -585,16 +585,48 @@ def _run_path(ip: Interp, c: Contract, fn: ast.FunctionDef, cls):
     for name, was_mutable in getattr(ip, '_param_mutable', {}).items():
         if not was_mutable:
             penv[name] = env[f'old_{name}']
-    try:
-        penv['result'] = _coerce_result(ip, result, c.ret, fn)
-    except OutOfSubset:
-        raise
+    penv['retval' if 'result' in c.sig else 'result'] = _coerce_result(ip, result, c.ret, fn)
+    _frame_check(ip, c, fn)
     sub = Interp(p, None, penv, spec=True, fname=f'{ip.fname}<post>')
     sub.contract = c
     for tag, clause in c.clauses():
         v = sub.ev(ast.parse(clause.strip(), mode='eval').body)
         t = sub.truth(v)
         p.oblige('post', t if z3.is_expr(t) else z3.BoolVal(bool(t)), fn, f'postcondition: {clause}', tag=tag)
+
+
+def _frame_check(ip: Interp, c: Contract, fn):
+    """fields of object parameters outside `modifies` must be unchanged at the exit"""
+    for name in c.sig:
+        cur = ip.env.get(name)
+        old = ip.env.get(f'old_{name}')
+        if isinstance(cur, PRec) and isinstance(old, PRec):
+            _frame_rec(ip, c, fn, name, cur, old)
+
+
+def _frame_rec(ip, c, fn, path, cur, old):
+    mods = [m.strip() for m in c.modifies]
+    for k, v in cur.f.items():
+        sub = f'{path}.{k}'
+        if any(m == sub or m == path or sub.startswith(m + '.') for m in mods):
+            continue
+        o = old.f.get(k)
+        if isinstance(v, PRec) and isinstance(o, PRec):
+            if any(m.startswith(sub + '.') for m in mods):
+                _frame_rec(ip, c, fn, sub, v, o)
+            else:
+                _frame_rec(ip, c, fn, sub, v, o)
+            continue
+        if v is o:
+            continue
+        if z3.is_expr(v) and z3.is_expr(o):
+            if v.eq(o):
+                continue
+            ip.p.oblige('frame', v == o, fn, f'{sub} is not in `modifies` and must be unchanged', tag='property')
+        elif type(v) is type(o) and v == o:
+            continue
+        else:
+            ip.p.oblige('frame', z3.BoolVal(False), fn, f'{sub} is not in `modifies` but was replaced', tag='property')
 
 
 def _coerce_result(ip: Interp, result, ret: str, fn):
